@@ -5,7 +5,7 @@
   Reading of the statement.  The code under test is `rtosc_print_arg_vals` / `rtosc_print_message`
   (model `printArgVals` / `printMessage`), `rtosc_count_printed_arg_vals(_of_msg)`
   (`countPrintedArgVals(OfMsg)`) and `rtosc_scan_arg_vals` / `rtosc_scan_message` (`scanArgVals` /
-  `scanMessage`), all with the fix patches fixes/C10-01 … C10-14 applied.  An argument list is the
+  `scanMessage`), all with the fix patches fixes/C10-01 … C10-15 applied.  An argument list is the
   flat cell array the C code uses (C16's `Cell`, `Item`, `flatList`); "the scanned values equal the
   originals, compressed ranges being compared by their expansion" is `expandList items' =
   expandList items` for the structured view of the scanned cells.
@@ -14,9 +14,11 @@
   1. token codecs for ALL values of a type (`*_roundtrip`, single argument, any print options);
   2. `list_roundtrip`, `message_roundtrip`: argument lists of such values that the printer does
      not compress (compression off, or no five same-typed values in a row), any line length;
-  3. ranges and arrays: NOT proved — covered by the correspondence check and the round-trip
-     oracle only; the same goes for time tags with second fractions.  The full statement is kept
-     as `print_scan_roundtrip_statement`.
+  3. arrays and ranges: with compression off the FULL statement is proved
+     (`print_scan_roundtrip_nocompress`: scalars and arrays of scalars, any options); range
+     compression itself (`nxA`, `a b ... c`) is proved only for whole-run lists where stated below,
+     otherwise covered by the correspondence check and the round-trip oracle.
+  The full statement is kept as `print_scan_roundtrip_statement`.
 -/
 import RtoscModel.Proofs.PrettyMsg
 import RtoscModel.Proofs.PrettyTokHuge
@@ -27,6 +29,8 @@ import RtoscModel.Proofs.PrettyTokSym
 import RtoscModel.Proofs.PrettyTokBlob
 import RtoscModel.Proofs.PrettyTokFloat
 import RtoscModel.Proofs.PrettyTokTimeEnd
+import RtoscModel.Proofs.PrettyTokTimeFrac
+import RtoscModel.Proofs.PrettyTokArray
 import RtoscModel.ArgVal.Expand
 import RtoscModel.Generated.PrettyConst
 namespace Rtosc.Pretty
@@ -69,7 +73,9 @@ def ItemInDomain (opt : POpt) : Item → Prop
   | .arr ety es =>
       es.length ≤ 8 ∧
       (∀ e ∈ es, ∃ c, e = .val c ∧ ScalarInDomain opt c ∧ typesMatch c.type ety = true) ∧
-      (es = [] → ety = 32)
+      -- the element type is not written in the text: the tag is the one the scanner reconstructs
+      -- (type of the last element; ' ' for an empty array)
+      ety = (match es.getLast? with | some (.val c) => c.type | _ => 32)
   | .rep .. => False
   | .range .. => False
 
@@ -106,6 +112,8 @@ inductive SimpleVal (opt : POpt) : Cell → Prop
   | float (b : UInt32) : opt.lossless = true → opt.prec ≤ 9 → f32.expField b.toNat ≠ 255 → SimpleVal opt (.flt b)
   | double (b : UInt64) : opt.lossless = true → opt.prec ≤ 9 → f64.expField b.toNat ≠ 2047 → SimpleVal opt (.dbl b)
   | timeClock (secs : Nat) : secs < 4294967296 → secs % 86400 ≠ 0 → SimpleVal opt (.time (secs * 4294967296))
+  | timeFrac (secs frac : Nat) : opt.lossless = true → opt.prec ≤ 9 → secs < 4294967296 → 0 < frac → frac < 4294967296 →
+      (∃ m k : Nat, m < 16777216 ∧ frac = m * 2 ^ k) → SimpleVal opt (.time (secs * 4294967296 + frac))
 
 theorem SimpleVal.token {opt : POpt} {c : Cell} (h : SimpleVal opt c) : c.isScalar = true ∧ PrintsTok opt c := by
   cases h with
@@ -126,6 +134,7 @@ theorem SimpleVal.token {opt : POpt} {c : Cell} (h : SimpleVal opt c) : c.isScal
   | float b hl hp hf => exact ⟨rfl, printsTok_float opt hl hp b hf⟩
   | double b hl hp hf => exact ⟨rfl, printsTok_double opt hl hp b hf⟩
   | timeClock secs h1 h2 => exact ⟨rfl, printsTok_time_clock opt secs h1 h2⟩
+  | timeFrac secs frac hl hp hs h0 h1 hr => exact ⟨rfl, printsTok_time_frac opt hl hp secs frac hs h0 h1 hr⟩
 
 /-- **list_roundtrip** (tier 2): for every list of `SimpleVal`s that the printer does not
     compress, and every line length / precision: printed length = returned length, the checker
@@ -224,6 +233,14 @@ theorem timetag_roundtrip (opt : POpt) (secs : Nat) (h : secs < 4294967296) :
       (fun fuel more prev st => time_dateonly_end opt (secs / 86400) (by omega) fuel more prev st)
   · exact single_roundtrip opt _ (.timeClock secs h hc)
 
+/-- **timetag_fraction_roundtrip**: time tags with a float-representable second fraction in
+    lossless mode, `YYYY-MM-DD HH:MM:SS.ddd (...+0x1.8p-3s)` (fixes C10-04, C10-05, C10-08). -/
+theorem timetag_fraction_roundtrip (opt : POpt) (hl : opt.lossless = true) (hp : opt.prec ≤ 9)
+    (secs frac : Nat) (hs : secs < 4294967296) (hf0 : 0 < frac) (hf1 : frac < 4294967296)
+    (hrep : ∃ m k : Nat, m < 16777216 ∧ frac = m * 2 ^ k) :
+    SingleRT opt (.time (secs * 4294967296 + frac)) :=
+  single_roundtrip opt _ (.timeFrac secs frac hl hp hs hf0 hf1 hrep)
+
 /-- **keyword_roundtrip**: `true false nil inf` and the time tag `immediately`. -/
 theorem keyword_roundtrip (opt : POpt) (f : ArgVal.FlagTy) : SingleRT opt (.flag f) ∧ SingleRT opt (.time 1) :=
   ⟨single_roundtrip opt (.flag f) (.flag f), single_roundtrip opt (.time 1) .immediately⟩
@@ -235,17 +252,172 @@ theorem flatList_vals (cs : List Cell) : flatList (cs.map Item.val) = cs := by
   | nil => simp [flatList]
   | cons c r ih => simp [flatList, Item.flat, ih]
 
-/-- **print_scan_roundtrip_partial**: the full statement restricted to lists of `SimpleVal`
-    scalars which the printer does not turn into ranges.  Missing for the full statement:
-    time tags with second fractions, time tags at midnight inside a list (proved as single
-    values: `timetag_roundtrip`), arrays, and compressed runs (tier 3). -/
-theorem print_scan_roundtrip_partial (opt : POpt) (cs : List Cell) (hv : ∀ c ∈ cs, SimpleVal opt c)
+/-- a time tag at midnight without fraction: printed as a bare date, which is only unambiguous at
+    the end of a text (a following ` 12:34` would be read as its clock time) -/
+def MidnightTime : Cell → Prop
+  | .time v => v ≠ 1 ∧ v % 4294967296 = 0 ∧ v / 4294967296 % 86400 = 0
+  | _ => False
+
+/-- every scalar of the property's domain (other than a midnight time tag) has a proved token -/
+theorem simpleVal_of_domain (opt : POpt) (hopt : OptOK opt) (c : Cell) (h : ScalarInDomain opt c)
+    (hm : ¬ MidnightTime c) : SimpleVal opt c := by
+  cases c with
+  | int ty v =>
+    cases ty with
+    | i => exact .int v h.1 h.2
+    | c => exact .char v h
+    | r => exact .color v h.1 h.2
+  | huge v => exact .huge v h.1 h.2
+  | time v =>
+    obtain ⟨hv, hcase⟩ := h
+    have e : v = v / 4294967296 * 4294967296 + v % 4294967296 := by omega
+    have hsecs : v / 4294967296 < 4294967296 := by omega
+    rcases hcase with h1 | h0 | ⟨hl, m, k, hmk, hfr⟩
+    · subst h1; exact .immediately
+    · by_cases h1 : v = 1
+      · subst h1; exact .immediately
+      · have hclock : v / 4294967296 % 86400 ≠ 0 := by
+          intro hz; exact hm ⟨h1, h0, hz⟩
+        have := SimpleVal.timeClock (opt := opt) (v / 4294967296) hsecs hclock
+        rw [show v / 4294967296 * 4294967296 = v from by omega] at this
+        exact this
+    · by_cases hz : v % 4294967296 = 0
+      · by_cases h1 : v = 1
+        · subst h1; exact .immediately
+        · have hclock : v / 4294967296 % 86400 ≠ 0 := by
+            intro hz'; exact hm ⟨h1, hz, hz'⟩
+          have := SimpleVal.timeClock (opt := opt) (v / 4294967296) hsecs hclock
+          rw [show v / 4294967296 * 4294967296 = v from by omega] at this
+          exact this
+      · have := SimpleVal.timeFrac (opt := opt) (v / 4294967296) (v % 4294967296) hl hopt.1 hsecs (by omega) (by omega)
+          ⟨m, k, hmk, hfr⟩
+        rw [← e] at this
+        exact this
+  | flt b => exact .float b h.1 hopt.1 h.2
+  | dbl b => exact .double b h.1 hopt.1 h.2
+  | midi a b c d => exact .midi a b c d
+  | str ty s =>
+    cases s with
+    | none => exact absurd h (by simp [ScalarInDomain])
+    | some s =>
+      cases ty with
+      | s => exact .string s h
+      | S => exact .symbol s h
+  | blob d => exact .blob d h
+  | flag f => exact .flag f
+  | arr ety len => exact absurd h (by simp [ScalarInDomain])
+  | rep n hd => exact absurd h (by simp [ScalarInDomain])
+
+/-- **print_scan_roundtrip_partial**: the full statement for lists of scalar values of the
+    property's domain — every type, floats and doubles bit-exact in lossless mode, time tags with
+    float-representable fractions — which the printer does not turn into ranges (compression off,
+    or no five same-typed values in a row).  Missing for the full statement: arrays, compressed
+    runs (tier 3), and a midnight time tag anywhere but alone (`timetag_roundtrip`). -/
+theorem print_scan_roundtrip_partial (opt : POpt) (hopt : OptOK opt) (cs : List Cell)
+    (hv : ∀ c ∈ cs, ScalarInDomain opt c ∧ ¬ MidnightTime c)
     (hr : opt.compress = false ∨ NoLongRun cs) : RoundTrips opt (cs.map Item.val) := by
-  obtain ⟨st, ret, h1, h2, h3, h4⟩ := list_roundtrip opt cs hv hr
+  obtain ⟨st, ret, h1, h2, h3, h4⟩ :=
+    list_roundtrip opt cs (fun c hc => simpleVal_of_domain opt hopt c (hv c hc).1 (hv c hc).2) hr
   refine ⟨st, ret, cs.map Item.val, ?_, h2, ?_, ?_, rfl⟩
   · rw [flatList_vals]; exact h1
   · rw [flatList_vals]; exact h3
   · rw [flatList_vals]; exact h4
+
+/-! ### Tier 3, partial: arrays (without compression) -/
+
+theorem typesMatch_trans (a b c : UInt8) (h1 : typesMatch a c = true) (h2 : typesMatch b c = true) :
+    typesMatch a b = true := by
+  simp only [typesMatch, Bool.or_eq_true, Bool.and_eq_true, decide_eq_true_eq] at *
+  rcases h1 with (h1 | h1) | h1 <;> rcases h2 with (h2 | h2) | h2 <;> simp_all
+
+theorem flatList_eq_flatten (items : List Item) : flatList items = (items.map Item.flat).flatten := by
+  induction items with
+  | nil => simp [flatList]
+  | cons x xs ih => simp [flatList, ih]
+
+theorem getLast?_map_val (cs : List Cell) :
+    (match (cs.map Item.val).getLast? with | some (.val c) => c.type | _ => 32) = lastTy cs 32 := by
+  unfold lastTy
+  rw [List.getLast?_map]
+  cases cs.getLast? <;> rfl
+
+/-- no time tag at midnight anywhere in the argument (see `MidnightTime`) -/
+def ItemNoMidnight : Item → Prop
+  | .val c => ¬ MidnightTime c
+  | .arr _ es => ∀ e ∈ es, ∀ c, e = .val c → ¬ MidnightTime c
+  | _ => True
+
+/-- an argument of the property's domain is a `GoodArg` when compression is off -/
+theorem goodArg_of_domain (opt : POpt) (hopt : OptOK opt) (hc : opt.compress = false) (x : Item)
+    (hd : ItemInDomain opt x) (hm : ItemNoMidnight x) : GoodArg opt x.flat := by
+  cases x with
+  | val c =>
+    have hs := simpleVal_of_domain opt hopt c hd hm
+    exact GoodArg.scalar c hs.token.1 hs.token.2
+  | arr ety es =>
+    obtain ⟨_, hel, hety⟩ := hd
+    -- the elements are plain values
+    obtain ⟨cs, hcs⟩ : ∃ cs : List Cell, es = cs.map Item.val := by
+      have key : ∀ l : List Item, (∀ e ∈ l, ∃ c, e = Item.val c ∧ ScalarInDomain opt c ∧ typesMatch c.type ety = true) →
+          ∃ cs : List Cell, l = cs.map Item.val := by
+        intro l
+        induction l with
+        | nil => intro _; exact ⟨[], rfl⟩
+        | cons e r ih =>
+          intro hl
+          obtain ⟨c, hc', _⟩ := hl e (by simp)
+          obtain ⟨cs, hcs⟩ := ih (fun e' he' => hl e' (by simp [he']))
+          exact ⟨c :: cs, by simp [hc', hcs]⟩
+      exact key es hel
+    subst hcs
+    have hflat : flatList (cs.map Item.val) = cs := flatList_vals cs
+    have hsv : ∀ c ∈ cs, SimpleVal opt c ∧ typesMatch c.type ety = true := by
+      intro c hcm
+      obtain ⟨c', hc', hdom, hty⟩ := hel (.val c) (List.mem_map.mpr ⟨c, hcm, rfl⟩)
+      cases hc'
+      exact ⟨simpleVal_of_domain opt hopt c hdom (hm (.val c) (List.mem_map.mpr ⟨c, hcm, rfl⟩) c rfl), hty⟩
+    rw [getLast?_map_val] at hety
+    simp only [Item.flat, hflat]
+    rw [hety]
+    refine GoodArg.array cs (fun e he => (hsv e he).1.token) ?_ (Or.inl hc)
+    intro e he
+    cases cs with
+    | nil => cases he
+    | cons c0 r =>
+      simp only [List.headD_cons]
+      exact typesMatch_trans _ _ ety (hsv c0 (by simp)).2 (hsv e he).2
+  | rep n x => exact absurd hd (by simp [ItemInDomain])
+  | range n d s => exact absurd hd (by simp [ItemInDomain])
+
+/-- **print_scan_roundtrip_nocompress** (tier 3, partial): with range compression switched off the
+    full statement holds — every argument list of the property's domain, scalars and arrays of
+    scalars, any line length and precision (only midnight time tags are excluded, see
+    `MidnightTime`).  What remains unproved is compression: constant and arithmetic runs printed as
+    `nxA` / `a b ... c`. -/
+theorem print_scan_roundtrip_nocompress (opt : POpt) (hopt : OptOK opt) (hc : opt.compress = false)
+    (items : List Item) (hd : ∀ x ∈ items, ItemInDomain opt x ∧ ItemNoMidnight x) : RoundTrips opt items := by
+  have hflat := flatList_eq_flatten items
+  obtain ⟨st, ret, h1, h2, h3, h4⟩ := list_roundtrip_goodArgs opt (items.map Item.flat)
+    (by
+      intro cs hcs
+      obtain ⟨x, hx, rfl⟩ := List.mem_map.mp hcs
+      exact goodArg_of_domain opt hopt hc x (hd x hx).1 (hd x hx).2)
+    (noConversion_args_nocompress opt hc _ (by
+      intro cs hcs
+      obtain ⟨x, _, rfl⟩ := List.mem_map.mp hcs
+      cases x <;> simp [Item.flat]))
+  refine ⟨st, ret, items, ?_, h2, ?_, ?_, rfl⟩
+  · rw [hflat]; exact h1
+  · rw [hflat]; exact h3
+  · rw [hflat]; exact h4
+
+/-- **array_roundtrip**: a homogeneous array of domain values (any length, no compression inside
+    or around it) — `[1 2 3]`, `["a" "b"]`, `[true false]`, `[]`. -/
+theorem array_roundtrip_nocompress (opt : POpt) (hopt : OptOK opt) (hc : opt.compress = false) (ety : UInt8)
+    (es : List Item) (hd : ItemInDomain opt (.arr ety es)) (hm : ItemNoMidnight (.arr ety es)) :
+    RoundTrips opt [.arr ety es] :=
+  print_scan_roundtrip_nocompress opt hopt hc [.arr ety es] (by
+    intro x hx; simp only [List.mem_singleton] at hx; subst hx; exact ⟨hd, hm⟩)
 
 /-! ### The constants and tables extracted from the source (Generated/PrettyConst.lean) -/
 
